@@ -12,6 +12,7 @@ import (
 
 const vSeed = "0123456789abcdefghijklmnopqrstuv"
 
+// a signed cookie is honoured exactly inside (issue time, issue time + expire) and not from more than five minutes in the future
 // verif: unwind=6 strlen=12 also=C02
 func vh_C09_window() {
 	vC09Window(true)
